@@ -15,9 +15,25 @@ def run(ctx):
     if ctx.replay:
         scenarios = [json.load(open(ctx.replay))["scenario"]]
     scen = os.path.join(ctx.work, "c09_scen.jsonl")
-    vlib.write_jsonl(scen, scenarios)
     trace = os.path.join(ctx.work, "c09.ndjson")
-    ctx.harness(["tlsgate", "--scenarios", scen, "--out", trace], timeout=3000)
+    killed = set()
+    for attempt in range(12):
+        vlib.write_jsonl(scen, scenarios)
+        p = ctx.harness(["tlsgate", "--scenarios", scen, "--out", trace], timeout=3000, ok_codes=(0, 2))
+        if p.returncode == 0:
+            break
+        # the server runs inside the harness process: a Go panic / fatal error here IS the server process dying
+        started = sum(1 for ln in open(trace, errors="replace") if '"ev":"scenario"' in ln) if os.path.exists(trace) else 0
+        s = scenarios[max(0, started - 1)]
+        key = (s["cred"], s["fault"])
+        if key not in killed:
+            killed.add(key)
+            ctx.violation("the server process died during a TLS scenario (cred=%s fault=%s rule=%s pass=%s pos=%s): %s" % (
+                s["cred"], s["fault"], s["rule"], s["pass"], s["pos"], " | ".join(p.stderr.strip().split("\n")[:3])[-400:]),
+                {"scenario": s, "stderr": p.stderr[-3000:]})
+        scenarios = [x for x in scenarios if (x["cred"], x["fault"]) != key]      # the rest is still judged
+        if not scenarios:
+            break
     ctx.stage("harness")
     accepted, scs, lines = ctx.validate(trace, "TraceTLS", stateful=True, constants="CONSTANT Diagnose = FALSE\n")
     ctx.stage("validate")
